@@ -41,10 +41,17 @@ M_C06(pre, a, obs, post) ==
             If(o \in EffOwners(post, t) \/ (EffOwners(post, t) # {} /\ o \notin EffOwners(post, t)
                                               /\ actor \in EffOwners(post, t) /\ "O" \in M(pre.subs[t][actor].given)),
                "OwnershipLeavesOnlyByAcceptedTransfer")
-            \cup If(actor # o => (post.subs[t][o].st = "live" /\ "J" \in Eff(post.subs[t][o])
-                                  /\ (M(pre.subs[t][o].given) \ {"O"}) \subseteq M(post.subs[t][o].given)),
+            \cup If(actor # o =>
+                      \/ (post.subs[t][o].st = "live" /\ post.subs[t][o].want = pre.subs[t][o].want
+                                                      /\ post.subs[t][o].given = pre.subs[t][o].given)
+                      \/ (actor \in EffOwners(post, t) /\ post.subs[t][o].st = "live"       \* the strip at an accepted transfer
+                             /\ M(post.subs[t][o].want) = M(pre.subs[t][o].want) \ {"O"}
+                             /\ M(post.subs[t][o].given) = M(pre.subs[t][o].given) \ {"O"}),
                     "OthersCannotRemoveBanOrDemoteOwner")
             \cup If(actor = o /\ IsReq(a) /\ a.a = "Leave" /\ a.t = t => post.subs[t][o].st = "live", "OwnerCannotUnsubscribe")
+            \* only the owner deletes the topic for everybody or changes its public description / default access
+            \cup If((~Live(post, t) \/ post.topics[t].public # pre.topics[t].public \/ post.topics[t].auth # pre.topics[t].auth
+                     \/ post.topics[t].anon # pre.topics[t].anon) => actor = o, "OwnerOnlyOperations")
             \* O appears in somebody's GIVEN only by the owner's request
             \cup If(\A u \in Users : ("O" \in M(post.subs[t][u].given) /\ "O" \notin M(pre.subs[t][u].given)) => actor = o \/ u = actor,
                     "OnlyOwnerGrantsOwnership")
@@ -86,7 +93,8 @@ M_C02(pre, a, obs, post) ==
   LET t == a.t  s == a.s  c == pre.cache[t]
       readers == {x.s : x \in {y \in AttOf(c) : y.chan \/ "R" \in Eff(c.per[y.u])}}
       expect == readers \ (IF a.noecho THEN {s} ELSE {})
-      pushExpect == {v \in Users : pre.subs[t][v].st = "live" /\ {"P", "R"} \subseteq Eff(pre.subs[t][v])}
+      \* permissions as the live topic holds them (that they equal the stored ones is C08's clause, not this one's)
+      pushExpect == {v \in Users : c.per[v].in /\ ~c.per[v].deleted /\ ~c.per[v].ischan /\ {"P", "R"} \subseteq Eff(c.per[v])}
   IN
   If({d.s : d \in obs.data} = expect, "ExactlyTheAttachedReaders")
   \cup If(\A x \in Sessions : obs.ndata[x] <= 1, "OneCopyEach")
@@ -126,32 +134,41 @@ M_C07(pre, a, obs, post) ==
     : tt \in Topics }
 
 \* ------------------------------------------------------------------ C08: live state = stored state
+\* every cached field equals what a reload would compute from the rows; reported at the step that BREAKS it
+Incons(S, t) ==
+  LET c == S.cache[t] IN
+  IF ~(c.loaded /\ Live(S, t)) THEN {} ELSE
+    If(c.last = S.topics[t].seq, "LastIdStored")
+    \cup If(c.del = S.topics[t].delId, "DelIdStored")
+    \cup If(c.auth = S.topics[t].auth /\ c.anon = S.topics[t].anon, "DefaultAccessStored")
+    \cup If(\A u \in Users : c.per[u].in <=> S.subs[t][u].st = "live", "SubscribersStored")
+    \cup If(\A u \in Users : c.per[u].in /\ S.subs[t][u].st = "live" => c.per[u].want = S.subs[t][u].want /\ c.per[u].given = S.subs[t][u].given, "PermissionsStored")
+    \cup If(\A u \in Users : c.per[u].in /\ S.subs[t][u].st = "live" /\ "R" \in Eff(c.per[u]) =>
+               c.per[u].read = S.subs[t][u].read /\ c.per[u].recv = S.subs[t][u].recv, "MarksStored")
+    \cup If(\A u \in Users : c.per[u].in /\ S.subs[t][u].st = "live" => c.per[u].delId = S.subs[t][u].delId, "UserDelIdStored")
+    \cup If(EffOwners(S, t) # {} => c.owner \in EffOwners(S, t), "OwnerStored")
+
 M_C08(pre, a, obs, post) ==
-  UNION {
-    LET t == tt  c == post.cache[t] IN
-    IF ~(c.loaded /\ Live(post, t)) THEN {} ELSE
-    If(c.last = post.topics[t].seq, "LastIdStored")
-    \cup If(c.del = post.topics[t].delId, "DelIdStored")
-    \cup If(c.auth = post.topics[t].auth /\ c.anon = post.topics[t].anon, "DefaultAccessStored")
-    \cup If(\A u \in Users : c.per[u].in <=> post.subs[t][u].st = "live", "SubscribersStored")
-    \cup If(\A u \in Users : c.per[u].in => c.per[u].want = post.subs[t][u].want /\ c.per[u].given = post.subs[t][u].given, "PermissionsStored")
-    \cup If(\A u \in Users : c.per[u].in /\ "R" \in Eff(c.per[u]) =>
-               c.per[u].read = post.subs[t][u].read /\ c.per[u].recv = post.subs[t][u].recv, "MarksStored")
-    \cup If(\A u \in Users : c.per[u].in => c.per[u].delId = post.subs[t][u].delId, "UserDelIdStored")
-    \cup If(EffOwners(post, t) # {} => c.owner \in EffOwners(post, t), "OwnerStored")
-    : tt \in Topics }
+  UNION { Incons(post, t) \ Incons(pre, t) : t \in Topics }
   \cup (IF IsReq(a) /\ obs.code >= 400 THEN If(StoreOf(post) = StoreOf(pre), "FailedRequestLeavesStoreUnchanged") ELSE {})
 
 \* ------------------------------------------------------------------ C09: marks
+\* bounds in every place marks are kept; reported at the step that breaks them
+MarkBounds(S) ==
+  UNION { UNION {
+      LET r == S.subs[t][u] IN
+      If(r.st = "live" /\ Live(S, t) => 0 <= r.read /\ r.read <= r.recv /\ r.recv <= S.topics[t].seq, "StoredMarksWithinBounds")
+      \cup If(S.cache[t].loaded /\ S.cache[t].per[u].in =>
+                 LET p == S.cache[t].per[u] IN 0 <= p.read /\ p.read <= p.recv /\ p.recv <= S.cache[t].last, "LiveMarksWithinBounds")
+      : u \in Users } : t \in Topics }
+
 M_C09(pre, a, obs, post) ==
-  UNION {
+  (MarkBounds(post) \ MarkBounds(pre))
+  \cup UNION {
     LET t == tt IN
     UNION {
       LET u == uu  r0 == pre.subs[t][u]  r1 == post.subs[t][u] IN
-      If(r1.st = "live" => 0 <= r1.read /\ r1.read <= r1.recv /\ r1.recv <= post.topics[t].seq, "StoredMarksWithinBounds")
-      \cup If(post.cache[t].loaded /\ post.cache[t].per[u].in =>
-                 LET p == post.cache[t].per[u] IN 0 <= p.read /\ p.read <= p.recv /\ p.recv <= post.cache[t].last, "LiveMarksWithinBounds")
-      \cup If(r0.st = "live" /\ r1.st = "live" => r1.read >= r0.read /\ r1.recv >= r0.recv, "StoredMarksNeverDecrease")
+      If(r0.st = "live" /\ r1.st = "live" => r1.read >= r0.read /\ r1.recv >= r0.recv, "StoredMarksNeverDecrease")
       \cup If(pre.cache[t].loaded /\ post.cache[t].loaded /\ pre.cache[t].per[u].in /\ post.cache[t].per[u].in =>
                  post.cache[t].per[u].read >= pre.cache[t].per[u].read /\ post.cache[t].per[u].recv >= pre.cache[t].per[u].recv, "LiveMarksNeverDecrease")
       \cup If(r0.st = "live" /\ r1.st = "live" /\ (r1.read # r0.read \/ r1.recv # r0.recv) =>
